@@ -158,7 +158,7 @@ fn exec(env: &Env, plan: Plan, want_trace: bool) -> (Value, u64, Value, Option<&
     let sh2 = sh.clone();
     let res = std::panic::catch_unwind(std::panic::AssertUnwindSafe(|| -> c2pa::Result<Value> {
         match env.op {
-            "read" => {
+            "read" | "read_signed" => {
                 let stream = Flaky { inner: Cursor::new(env.src.clone()), sh: sh2.clone() };
                 let r = Reader::from_context(e2e::context(env.settings)).with_stream(env.format, stream)?;
                 Ok(shape(&r))
@@ -202,6 +202,15 @@ pub fn run(case: &Value) -> Value {
         def: if case["def"].is_null() { e2e::minimal_manifest("c35") } else { case["def"].to_string() },
         src: e2e::fixture(case["fixture"].as_str().unwrap_or("CA.jpg")),
     };
+    // read_signed: the fixture is first signed through ordinary cursors; the signed asset is what is read through the wrapper
+    let mut env = env;
+    if env.op == "read_signed" {
+        let signer = e2e::signer(env.alg);
+        match e2e::sign(e2e::context(env.settings), &env.def, env.format, &env.src, signer.as_ref()) {
+            Ok(b) => env.src = b,
+            Err(e) => return json!({"r": "setup_err", "kind": err_class(&e)}),
+        }
+    }
     let fail_kinds = match case["fail_kinds"].as_str().unwrap_or("all") {
         "read" => 1,
         "write" => 2,
@@ -226,7 +235,11 @@ pub fn run(case: &Value) -> Value {
         let se = fa["sticky_every"].as_u64().unwrap_or(4).max(1);
         let total = if fail_kinds == 0 { ops } else { kinds[["", "read", "write", "seek"][fail_kinds as usize]].as_u64().unwrap_or(0) };
         let mut ks: Vec<u64> = vec![];
-        if n >= total {
+        if let Some(parts) = fa.get("parts").and_then(|v| v.as_u64()).filter(|p| *p > 0) {
+            // every call index of residue `part` modulo `parts`: several cases together cover every k
+            let part = fa["part"].as_u64().unwrap_or(0);
+            ks = (0..total).filter(|k| k % parts == part).collect();
+        } else if n >= total {
             ks = (0..total).collect();
         } else {
             ks.extend(0..10.min(total));
